@@ -169,6 +169,41 @@ def _task_function(qname):
     return out
 
 
+def _refinement_pair(key):
+    """(summary, proved contract) for a task key (key of the summary in the registry, property of the prover)"""
+    t = _REG.contracts[key[0]]
+    vs = [c for c in _REG.contracts.values() if c.qname == t.qname and not c.trusted
+          and getattr(getattr(c, 'module', None), 'prop', None) == key[1]]
+    if not vs:
+        raise LookupError('no proved contract for %s in the sidecar module of %s' % (t.qname, key[1]))
+    return t, vs[0]
+
+
+def _task_refinement(key):
+    """Runs in a worker process: the assumed summary `key[0]` is implied by the contract proved under `key[1]`."""
+    out = {'qname': '%s#implied-by-%s' % key, 'kind': 'function'}
+    result = {}
+
+    def body():
+        try:
+            t, v = _refinement_pair(key)
+            _REG.current_module = getattr(v, 'module', None)
+            rep = verify.verify_function(_REG, t, via=v)
+            rep.dep_shas = getattr(rep, 'dep_shas', None) or {}
+            r = _summarize(t, rep)
+            r['qname'] = verify.refinement_name(t, v)
+            r['refinement_of'] = key[0]
+            result['rep'] = r
+        except BaseException:
+            result['crash'] = traceback.format_exc()
+
+    th = threading.Thread(target=body)
+    th.start()
+    th.join()
+    out.update(result)
+    return out
+
+
 def _summarize(c, rep):
     all_backends = (_TIER == 'thorough')
     clauses = {}
@@ -404,6 +439,19 @@ def main(argv=None):
             assert any(n == x[0] for mm in _MODS if mm.prop == other for x in list(mm.checks) + list(mm.bounded_checks)), \
                 'shared check %s/%s does not exist' % (other, n)
             tasks.append(('c', (other, n)))
+    # assumed summaries declared to follow from what another property proves (Module.implied_by)
+    for m in mine:
+        for (q, other) in getattr(m, 'refinements', ()):
+            if args.only and args.only not in q:
+                continue
+            keys = [k for k, c in _REG.contracts.items() if c.qname == q and c.trusted and getattr(c, 'module', None) is m]
+            assert keys, 'implied_by(%s): this module states no assumed contract for it' % q
+            tasks.append(('r', (keys[0], other)))
+            for k, c in _REG.contracts.items():
+                # the proved contract carries this property too: re-proved here
+                if c.qname == q and not c.trusted and getattr(getattr(c, 'module', None), 'prop', None) == other \
+                        and c.func is not None and ('f', k) not in tasks:
+                    tasks.append(('f', k))
     missing = [(q, why) for (q, why) in _REG.missing
                if (q in _REG.contracts and prop in _REG.contracts[q].props) or
                any(q == ls.qname for m in mine for ls in m.loops)]
@@ -411,16 +459,17 @@ def main(argv=None):
     ctx = multiprocessing.get_context('fork')
     if args.jobs > 1 and len(tasks) > 1:
         with ctx.Pool(min(args.jobs, len(tasks)), maxtasksperchild=8) as pool:
-            asyncs = [(t, pool.apply_async(_task_function if t[0] == 'f' else _task_check, (t[1],))) for t in tasks]
+            asyncs = [(t, pool.apply_async({'f': _task_function, 'r': _task_refinement, 'c': _task_check}[t[0]], (t[1],)))
+                      for t in tasks]
             for t, a in asyncs:
                 try:
                     results.append(a.get(timeout=3600))
                 except Exception:
-                    results.append({'kind': 'function' if t[0] == 'f' else 'check', 'qname': str(t[1]),
+                    results.append({'kind': 'function' if t[0] in ('f', 'r') else 'check', 'qname': str(t[1]),
                                     'name': str(t[1]), 'crash': traceback.format_exc()})
     else:
         for t in tasks:
-            results.append(_task_function(t[1]) if t[0] == 'f' else _task_check(t[1]))
+            results.append({'f': _task_function, 'r': _task_refinement, 'c': _task_check}[t[0]](t[1]))
     return report(prop, mine, results, missing, seed, time.time() - t0, args)
 
 
@@ -444,6 +493,7 @@ def report(prop, mine, results, missing, seed, wall, args):
     bounded_all = []
     baseline_out = {}
     baseline_fns = {}
+    implied = {}
     for r in results:
         if 'crash' in r:
             lost = _lost_obligations(r['qname'], set(), 'verifier error: ' + r['crash'][-600:]) \
@@ -476,6 +526,9 @@ def report(prop, mine, results, missing, seed, wall, args):
                 c = _REG.contracts.get(q)
                 if c is not None and c.trusted:
                     assumed_contracts.add(q)
+            if rep.get('refinement_of') and not rep['unsupported'] and not rep['errors'] and rep['clauses'] \
+                    and all(cl['status'] == 'unsat' for cl in rep['clauses'].values()):
+                implied[rep['refinement_of']] = rep['qname']
             samples.extend(rep['samples'][:1])
             baseline_fns[rep['qname']] = rep.get('dep_shas') or {}
             lost = []
@@ -593,7 +646,8 @@ def report(prop, mine, results, missing, seed, wall, args):
         pass
     bounded = bounded_all
     trusted.extend('model of %s' % x for x in sorted(used_models))
-    trusted.extend('assumed contract of %s' % x for x in sorted(assumed_contracts))
+    trusted.extend('assumed contract of %s' % x for x in sorted(assumed_contracts) if x not in implied)
+    extra_implied = ['%s' % implied[x] for x in sorted(implied)]
     trusted.extend(['z3 %s' % z3.get_version_string(), 'cvc5 1.0.3 (fallback)', 'pyvc symbolic interpreter (DESIGN 2)',
                     'CPython %d.%d semantics as encoded (DESIGN 2.5)' % sys.version_info[:2]])
     assumptions.extend('assert isinstance(...) taken as assumption at %s' % a for a in sorted(assumed_asserts))
@@ -668,6 +722,7 @@ def report(prop, mine, results, missing, seed, wall, args):
             'undecided': [list(u) for u in undecided],
             'samples': samples[:5] or [{'note': 'no SMT sample (all obligations by enumeration/scan)'}],
             'bounded_standins': bounded,
+            'summaries_implied_by_contracts_proved_for_other_properties': extra_implied,
             **extra,
         },
         'assumptions': assumptions,
